@@ -637,7 +637,18 @@ def check_outputs(run, slot, algo, policy, outs, where, regime):
     else:
         if len(costs_seen) != len(outs):
             # some output is not a valid solution (reported above when in focus): nothing
-            # can be concluded from its cost by the other properties
+            # can be concluded from its cost by the other properties - except C09, which is
+            # about what the package returns (reported cost, returned set) staying the same
+            # under re-presentation, whether or not it is right
+            if run.focus == "C09" and slot.binary:
+                try:
+                    raw_costs = [o.cost() for o in outs]
+                    raw_keys = [canon.output_key(o, labelled) for o in outs]
+                except Exception:  # noqa: BLE001 - not even evaluable: nothing to compare
+                    return INVALID, frozenset()
+                if raw_costs and all(c == raw_costs[0] for c in raw_costs):
+                    run.probe("relations_on_unvalidated_output")
+                    return raw_costs[0], frozenset(raw_keys)
             return INVALID, frozenset()
         cost = costs_seen[0]
         run.check(all(c == cost for c in costs_seen), ("C05", prop), "C05.costs-differ",
